@@ -45,7 +45,9 @@ structure InvE (N : Nat) (s : State) : Prop where
   vc_voted   : ∀ t c v, v ∈ s.g.counted t c → s.g.voted t v = some c ∧ v < N ∧ v ≠ c
   vc_votes   : ∀ n, (s.nodes n).role = .candidate →
                  (s.nodes n).votes = 1 + (s.g.counted (s.nodes n).term n).length
-  self_vote  : ∀ n, (s.nodes n).role ≠ .follower → s.g.voted (s.nodes n).term n = some n ∧ n < N
+  self_vote  : ∀ n, (s.nodes n).role ≠ .follower →
+                 s.g.voted (s.nodes n).term n = some n ∧ n < N ∧ 0 < (s.nodes n).term
+  counted_self : ∀ t c v, v ∈ s.g.counted t c → s.g.voted t c = some c
   ldr_of     : ∀ n, (s.nodes n).role = .leader → s.g.leaderOf (s.nodes n).term = some n
   el_quorum  : ∀ t l, s.g.leaderOf t = some l →
                  IsQuorum N (s.g.electors t) ∧ (∀ v ∈ s.g.electors t, s.g.voted t v = some l) ∧ l < N ∧ 0 < t
